@@ -213,6 +213,61 @@ fn part_newgame(bytes: &[u8], stats: &mut Stats) -> Verdict {
     Ok(())
 }
 
+/// In-process amplifier (not the deciding oracle — the statement is about the complete output of
+/// the process): the same sequence of depth-limited searches of one game on K searchers, each
+/// with its own key draw, must give identical (score, move, node count) sequences.
+fn part_inprocess(bytes: &[u8], stats: &mut Stats) -> Verdict {
+    use flsrc::search::Searcher;
+    let mut s = Src::new(bytes);
+    let start = gen::g_small(&mut s).0;
+    let n_searches = 2 + s.below(4);
+    // the game: start, then 1..2 plies between searches
+    let mut positions = vec![start.clone()];
+    let mut p = start;
+    for _ in 1..n_searches {
+        for _ in 0..1 + s.below(2) {
+            let legal = p.legal_moves();
+            let Some(m) = gen::choose_move(&mut s, &p, &legal) else { break };
+            p = p.make(m);
+        }
+        positions.push(p.clone());
+    }
+    let depths: Vec<u8> = positions.iter().map(|_| 1 + s.below(4) as u8).collect();
+    const K: usize = 4;
+    let mut outs: Vec<Vec<(i32, Option<String>, u64)>> = Vec::new();
+    for _ in 0..K {
+        let mut sr = Searcher::new();
+        sr.verif_set_hard_cap(Some(400_000));
+        let mut out = Vec::new();
+        for (q, d) in positions.iter().zip(depths.iter()) {
+            let b = crate::eng::to_board(q);
+            let r = std::panic::catch_unwind(std::panic::AssertUnwindSafe(|| sr.find_best_move(&b, *d, None)));
+            match r {
+                Ok((score, mv)) => out.push((score, mv.map(|m| m.to_algebraic()), sr.verif_nodes())),
+                Err(_) => {
+                    stats.exclude("in-process search over the node watchdog");
+                    return Ok(());
+                }
+            }
+        }
+        outs.push(out);
+    }
+    stats.evals(K as u64);
+    for k in 1..K {
+        if outs[k] != outs[0] {
+            let idx = outs[0].iter().zip(outs[k].iter()).position(|(a, b)| a != b).unwrap_or(0);
+            return Err(Failure::new(
+                "search-depends-on-key-draw",
+                json!({"game": positions.iter().map(|q| q.fen(0,1)).collect::<Vec<_>>(), "depths": depths, "first_difference_at_search": idx,
+                       "searcher_0": format!("{:?}", outs[0].get(idx)), "other_searcher": format!("{:?}", outs[k].get(idx))}),
+            ));
+        }
+    }
+    stats.class("inprocess_games_on_4_key_draws");
+    stats.nontrivial(&(positions[0].fen4(), depths.clone(), positions.len()));
+    Ok(())
+}
+
 pub fn run(tier: Tier, seed: u64, known: &Known) -> PropRun {
     let mut run = PropRun::new("exploration", RULE);
     run.assumptions = vec![
@@ -238,6 +293,13 @@ pub fn run(tier: Tier, seed: u64, known: &Known) -> PropRun {
     let part = Part { name: "newgame", cases: tier.pick(150, 4_000), min_len: 24, max_len: 900, max_shrink: 40, threads: threads() };
     let (st, fl) = run_part(&part, seed, known, part_newgame);
     run.stats.merge(st);
+    if fl.is_some() {
+        run.failure = fl;
+        return run;
+    }
+    let part = Part { name: "inprocess", cases: tier.pick(1_500, 60_000), min_len: 24, max_len: 400, max_shrink: 200, threads: threads() };
+    let (st, fl) = run_part(&part, seed, known, part_inprocess);
+    run.stats.merge(st);
     run.failure = fl;
     run
 }
@@ -246,6 +308,7 @@ pub fn replay(part: &str, bytes: &[u8], _case: &Value, stats: &mut Stats) -> Ver
     RUNS.with(|c| c.set(4));
     match part {
         "newgame" => part_newgame(bytes, stats),
+        "inprocess" => part_inprocess(bytes, stats),
         _ => part_runs(bytes, stats),
     }
 }
